@@ -10,7 +10,7 @@ TRUST = ("Trusted: rustc nightly's MIR construction and callee resolution for /r
 
 CLAIMS = {
  "C14": dict(cat="other", design="DESIGN.md §2 C14",
-   text="Static write/read-discipline audit over the MIR of the serialisation and parse cones: no dropped io::Write::write count (write_all or retry loop only), every Result propagated, in-crate Write/Read adapters forward the inner count, input consumed only via read_exact/read_to_end. Universal over all sinks/sources because it speaks about every call site on the cone; it does not compute the bytes.",
+   text="Static write/read-discipline audit over the MIR of the serialisation and parse cones: no dropped io::Write::write count (write_all or retry loop only), every Result propagated, in-crate Write/Read adapters forward the inner count, input consumed only via read_exact/read_to_end; an adapter's own counters advance after and by the inner count; the Result of every emission call is propagated on the spot (no `and`/fold over emission results), so a failed write ends the emission. Universal over all sinks/sources because it speaks about every call site on the cone; it does not compute the bytes.",
    technique="MIR call-site audit on call-graph cones (who-may-call + result-discipline dataflow)"),
  "C18": dict(cat="proof", design="DESIGN.md §2 C18",
    text="Complete abstract evaluation (bit-vector domain over 16/32 symbolic input bits, equality-switch refinement, interval predicates) of every FileMode conversion body in MIR; each obligation is discharged for all 65 536 words and all i32 values at once because every path of every body is enumerated in the abstract domain. A body that leaves the domain is reported, never passed.",
@@ -42,13 +42,13 @@ CLAIMS = {
    text="Taint-to-sink audit of Package::extract over MIR: every filesystem-modifying call on its cone is enumerated; the provenance term of its path argument must be the target itself or the Ok payload of the containment function applied to (target, package path); the containment function's Component arm table (.. and prefix -> error, only Normal names pushed), its who-may-write set and its symlink refusal (conditional on nothing but is-symlink and not-last) are checked; follow-capable calls on the final path must be dominated by symlink removal; panic-site audit of the cone; per-file-type arm table against the oracle. Universal over hostile packages because it covers every sink; filesystem races are out of scope.",
    technique="taint-to-sink provenance audit + sanitiser arm table + dominance + panic-site audit"),
  "C11": dict(cat="other", design="DESIGN.md §2 C11",
-   text="Determinism-source audit over the MIR call-graph cone of PackageBuilder::build/build_and_sign: no iteration or Debug-formatting of a HashMap/HashSet (type-resolved from callee receiver types), a closed table of ambient inputs (only Timestamp::now at the two clamped sites), and for build time, per-file mtime and signature time the min(source_date, value) pattern with branch polarity plus consumer provenance being the clamped local. Universal over all runs/processes because it removes every seed- or clock-dependent source from the path; determinism inside compressors and pgp is trusted.",
+   text="Determinism-source audit over the MIR call-graph cone of PackageBuilder::build/build_and_sign: no iteration or Debug-formatting of a HashMap/HashSet (type-resolved from callee receiver types), a closed table of ambient inputs (only Timestamp::now at the two clamped sites), and for build time, per-file mtime and signature time the min(source_date, value) pattern with branch polarity plus consumer provenance being the clamped local. Universal over all runs/processes because it removes every seed- or clock-dependent source from the path; determinism inside compressors and pgp is trusted (with the zstdmt feature the CPU count may only become the zstd worker count, on which the frames do not depend).",
    technique="type-resolved call-site audit on the build cone + clamp-pattern dataflow with polarity"),
  "C15": dict(cat="other", design="DESIGN.md §2 C15",
    text="Formatter/parser table agreement: CompressionType's Display (variant, literal) rows are looked up in FromStr's (literal, variant) rows; separators of the Evr/Nevra format templates (from the expanded AST) are compared with the characters the parsers split on; boundaries whose left part may contain the separator must be searched from the right (the left split of the NEVRA name is a recorded known finding); the normalised form's epoch operand is \"0\" exactly on the is_empty branch; panic-site audit of the parsing functions. Structural necessary conditions of the round trip, not the value-level equality.",
    technique="arm-table extraction + AST format-template join + provenance of split receivers + panic-site audit"),
  "C19": dict(cat="other", design="DESIGN.md §2 C19",
-   text="Loop-invariance rule (every rejecting branch in the per-clause loop must be data-dependent on the clause), validation-dominates-construction with verbatim storage for every FileCaps construction, operator/flag character switch tables and the capability-name constant (decoded from the compiled constant) against the oracle, error mapping, and a panic-site audit of the validator. Decides the structural clauses for all strings; exact language equality with the grammar is not decided.",
+   text="Loop-invariance rule (every rejecting branch in the per-clause loop must be data-dependent on the clause), validation-dominates-construction with verbatim storage for every FileCaps construction, operator/flag character switch tables and the capability-name constant (decoded from the compiled constant) against the oracle, error mapping, and a panic-site audit of the validator. The accept/reject verdict of the suffix validator is decided by abstract evaluation of its MIR on a symbolic text of up to four characters (every path's constraints compared with the grammar for every class assignment they allow; falls back to the structural switch tables when the body leaves the domain). Decides the structural clauses for all strings and the suffix verdict for all texts up to four characters; exact language equality of the whole grammar is not decided.",
    technique="loop-invariant-guard dataflow + dominance + switch-table / constant-table extraction"),
  "C01": dict(cat="other", design="DESIGN.md §2 C01",
    text="Sibling agreement between every parser and its writer over MIR: decoder chains (static widths) and write_all operands are compared slot by slot with each other and with the rpm format oracle; every consumed slot is stored in the field the writer replays, or replaced by a constant after a guard over all its bytes, or is a permitted difference; write_index emits only raw index fields; type-code tables compose to the identity; the store is the untouched remainder; one padding function, tabulated over all 8 residues by abstract evaluation. These are the structural necessary conditions of the byte-for-byte round trip for every accepted input.",
@@ -61,7 +61,7 @@ CLAIMS = {
    text="Table extraction over MIR against oracle tables: per-type arm table of the store decoder (decoder, width, count, NUL terminator), the variant sets each typed getter accepts, the (tag, getter) pairs of every public accessor through the helper functions and constant tag triples (rpm tag table), and the field-by-field provenance of Dependency / Scriptlet / ChangelogEntry / FileEntry values through zip positions; each string-list loop must step over the terminator. Decides that every accessor reads the right tag with the right type and position for every header.",
    technique="arm-table / switch-table extraction + provenance terms through zip positions + oracle join"),
  "C06": dict(cat="other", design="DESIGN.md §2 C06",
-   text="Field-flow completeness and table agreement: every field of the builder state and of per-file / scriptlet / dependency records must occur in the provenance of a header entry or archive write; each (field, tag, data type) row at the IndexEntry::new sites must equal the oracle and be of a type the matching accessor's getter accepts; no reordering call on list inputs; exactly one push per per-file vector per file in the single file loop. Value-level path arithmetic (dirname/basename strings) is not decided.",
+   text="Field-flow completeness and table agreement: every field of the builder state and of per-file / scriptlet / dependency records must occur in the provenance of a header entry or archive write; each (field, tag, data type) row at the IndexEntry::new sites must equal the oracle and be of a type the matching accessor's getter accepts; no reordering call on list inputs; exactly one push per per-file vector per file in the single file loop. The row of an optional field (vendor ... cookie, scriptlets) may be gated by one test only, that this field is set; every path to a file entry establishes the trailing '/' of its directory name (format template, ends_with test or push). Other value-level path arithmetic is not decided.",
    technique="field def/use over provenance terms + table join with C05's accessor table + loop dominance"),
  "C07": dict(cat="other", design="DESIGN.md §2 C07",
    text="The metadata handed out with each archive entry must be selected through the entry's own identity (cpio name predicate or stripped file index); the newc header writer's field sequence and the reader's decoder sequence are compared positionally with each other and with the format oracle incl. all paddings; stripped-entry agreement; size source and read limit; single unconditional trailer with a shared constant; per-compression-type codec table (encoder, decoder, finish, header string, parser key).",
